@@ -464,6 +464,10 @@ class NbSession:
             mine = {(q.v.vid, i) for i in q.idxs}
             if any((p.v.vid, i) in mine for pl in self.pending for p in pl if not p.isput for i in p.idxs):
                 return None
+        return self.post_q(r, q)
+
+    def post_q(self, r, q):
+        kind = q.kind
         if not self.slots_free[r]:
             return None
         q.slot = self.slots_free[r].pop()
@@ -1481,3 +1485,135 @@ def sess_attached(sess, o):
 
 def sess_pending_bytes(sess, o):
     return -1
+
+
+# ======================================================================================== directed sessions
+class Directed(NbSession):
+    """hand-written histories (same machinery, SPEC bookkeeping and oracle as the generated ones): the minimal
+    witnesses of the model's refuted statements, replayed on the real library in every run"""
+    def __init__(self, np_, dims, vars_, fmt=5, hint='auto'):
+        NbSession.__init__(self, C.SplitMix64(7), np_=np_)
+        self.hint = hint
+        self.indep = False
+        s = Schema.__new__(Schema)
+        s.rng = self.rng; s.fmt = fmt; s.types = list(range(1, 12)); s.dims = dims; s.vars = []
+        for i, (xt, dimids) in enumerate(vars_):
+            shape = [dims[d][1] for d in dimids]
+            s.vars.append(Var(i, 'v%d' % i, xt, dimids, shape, bool(dimids) and dims[dimids[0]][1] == 0))
+        s.numrecs = 0
+        self.s = s; self.fmt = fmt
+        self.has_rec = any(l == 0 for _, l in dims)
+        f = self.f
+        self.emit('hint nc_in_place_swap %s' % self.hint)
+        self.emit('* create %d %d 1' % (f, fmt))
+        for l in s.define_lines(f):
+            self.emit(l)
+        self.emit('* enddef %d' % f)
+        self.ops.append(dict(op='inq', ln=self.emit('* inq %d' % f)))
+        self.numrecs = 0
+        self.written = {}
+        self.pending = [[] for _ in range(np_)]
+        self.slots_free = [list(range(63, -1, -1)) for _ in range(np_)]
+        self.attached = [None] * np_
+        self.poisoned = [False] * np_
+        self.allow_overlap_gets = True
+
+    def req(self, rank, kind, vid, start, count, memk=None, form='vara', stride=None):
+        v = self.s.vars[vid]
+        stride = stride or [1] * v.nd
+        memk = memk or v.xtype
+        idxs = [tuple(i) for i in O.req_indices(start, count, stride)] if prod(count) else []
+        q = Req(rank=rank, kind=kind, v=v, form=form, parts=[(start, count, stride)], memk=memk, flex=False, buf=('c',),
+                imap=None, count0=count, seed=self.next_seed(), lim=O.pat_lim(memk, v.xtype), nelems=len(idxs), idxs=idxs,
+                nbytes=len(idxs) * ELSIZE[v.xtype], slot=None, line=None, id_expected=None)
+        return self.post_q(rank, q)
+
+    def attach(self, r, size):
+        ln = self.emit('%d attach %d %d' % (r, self.f, size))
+        self.ops.append(dict(op='attach', ln=ln, rank=r, n=size, expect=(-216 if self.attached[r] is not None else 0)))
+        if self.attached[r] is None:
+            self.attached[r] = size
+
+    def numrecs_probe(self):
+        ln = self.emit('* inq_numrecs %d' % self.f)
+        self.ops.append(dict(op='numrecs', ln=ln, expect=self.numrecs))
+
+    def finish(self):
+        self.flush_all()
+        self.readback()
+        self.ops.append(dict(op='close', ln=self.emit('* close %d' % self.f)))
+        return self
+
+
+def directed_sessions():
+    out = []
+    T = ('t', 0); X = ('x', 4)
+    # F1: numrecs after a wait that names a later-queued record request
+    d = Directed(1, [T, X], [(4, [1]), (4, [0, 1])])
+    a = d.req(0, 'iput', 0, [0], [4]); b = d.req(0, 'iput', 1, [5, 0], [1, 4])
+    d.do_coll_wait([('wait', 1, [str(b.slot)])]); d.numrecs_probe()
+    d.do_coll_wait([('wait', 1, [str(a.slot)])]); d.numrecs_probe()
+    out.append(('F1-numrecs', d.finish()))
+    # F2: two reads of the same region completed by one wait
+    d = Directed(1, [T, X], [(4, [1])])
+    d.blocking_put(d.s.vars[0], [0], [4], [1])
+    a = d.req(0, 'iget', 0, [0], [4]); b = d.req(0, 'iget', 0, [0], [4])
+    d.do_inq_nreqs(0)
+    d.do_coll_wait([('wait', -1, [])])
+    out.append(('F2-overlapping-gets', d.finish()))
+    # F2 inside ONE varn request
+    d = Directed(1, [T, X], [(4, [1])])
+    d.blocking_put(d.s.vars[0], [0], [4], [1])
+    v = d.s.vars[0]
+    parts = [([0], [3], [1]), ([1], [2], [1])]
+    idxs = [tuple(i) for st, ct, sd in parts for i in O.req_indices(st, ct, sd)]
+    q = Req(rank=0, kind='iget', v=v, form='varn', parts=parts, memk=4, flex=False, buf=('c',), imap=None, count0=[3],
+            seed=d.next_seed(), lim=O.pat_lim(4, 4), nelems=5, idxs=idxs, nbytes=20, slot=None, line=None, id_expected=None)
+    d.post_q(0, q)
+    d.do_coll_wait([('wait', 1, [str(q.slot)])])
+    out.append(('F2-overlap-inside-varn', d.finish()))
+    # F3: statuses delivered in queue order, not in req_ids order
+    d = Directed(1, [T, X], [(4, [1])])
+    d.blocking_put(d.s.vars[0], [0], [4], [1])
+    a = d.req(0, 'iget', 0, [0], [2], memk=1); b = d.req(0, 'iget', 0, [2], [2], memk=4)
+    d.do_coll_wait([('wait', 2, [str(b.slot), str(a.slot)])])
+    out.append(('F3-status-order', d.finish()))
+    # F3: a NULL id makes the wait complete a request it does not name
+    d = Directed(1, [T, X], [(4, [1])])
+    a = d.req(0, 'iput', 0, [0], [2]); b = d.req(0, 'iput', 0, [2], [2])
+    d.do_coll_wait([('wait', 2, ['N', str(a.slot)])])
+    d.do_coll_wait([('cancel', 1, [str(b.slot)])][:0] or [('wait', 0, [])])
+    d.do_step(0, ('cancel', 1, [str(b.slot)]), 'c')
+    out.append(('F3-null-id', d.finish()))
+    # F3: a duplicated id completes the request that is not named
+    d = Directed(1, [T, X], [(4, [1])])
+    a = d.req(0, 'iput', 0, [0], [2]); b = d.req(0, 'iput', 0, [2], [2])
+    d.do_coll_wait([('wait', 2, [str(a.slot), str(a.slot)])])
+    out.append(('F3-duplicate-id', d.finish()))
+    # F7: usage does not fall when the first of two buffered puts completes; the freed space cannot be reused
+    d = Directed(1, [T, ('x', 16)], [(4, [1])])
+    d.attach(0, 32)
+    a = d.req(0, 'bput', 0, [0], [4]); b = d.req(0, 'bput', 0, [4], [4])
+    d.do_inq_buffer(0)
+    d.do_coll_wait([('wait', 1, [str(a.slot)])])
+    d.do_inq_buffer(0)
+    c = d.req(0, 'bput', 0, [8], [4])
+    d.do_inq_buffer(0)
+    d.do_coll_wait([('wait', -1, [])])
+    d.do_inq_buffer(0)
+    d.do_detach(0)
+    out.append(('F7-usage', d.finish()))
+    # a failed wait (duplicate id, not all pending named) leaves the named request flagged for ever
+    d = Directed(1, [T, X], [(4, [1])])
+    d.blocking_put(d.s.vars[0], [0], [4], [1])
+    a = d.req(0, 'iput', 0, [0], [2]); b = d.req(0, 'iput', 0, [2], [1]); c = d.req(0, 'iget', 0, [3], [1])
+    d.do_coll_wait([('wait', 2, [str(a.slot), str(a.slot)])])
+    out.append(('failed-wait-poisons', d.finish()))
+    # an invalid id on ONE process makes wait_all return NC_NOERR on the OTHER without doing its I/O
+    d = Directed(2, [T, X], [(4, [1])])
+    d.blocking_put(d.s.vars[0], [0], [4], [1])
+    a = d.req(0, 'iput', 0, [0], [2])
+    b = d.req(1, 'iput', 0, [2], [1]); c = d.req(1, 'iget', 0, [3], [1])
+    d.do_coll_wait([('wait', 1, [str(a.slot)]), ('wait', 2, [str(b.slot), str(b.slot)])])
+    out.append(('waitall-peer-error', d.finish()))
+    return out
